@@ -35,8 +35,44 @@ var trusted = []string{
 	"the reference tables in the checker are the property statements transcribed",
 }
 
+// closureRole names, for the anonymous functions the rules anchor on, a callee that only that closure of its
+// parent calls. Closures are numbered in source order, so adding or removing an unrelated closure in the parent
+// shifts the numbers; the role finds the right one regardless (the number is only the fall-back).
+var closureRole = map[string]string{
+	"L/rapidcore|(*Server).Invoke$1":            "time.After",
+	"L/rapidcore|(*Server).Invoke$2":            "L/rapidcore.Server.Reserve",
+	"L/rapidcore|(*Server).Reset$1":             "L/interop.SandboxContext.Reset",
+	"L/rapidcore|(*Server).FastInvoke$1":        "L/rapidcore.Server.trySendDefaultErrorResponse",
+	"L/rapidcore|(invokeContext).SendRequest$1": "L/interop.RapidContext.HandleInvoke",
+	"L/rapid|doInvoke$1":                        "L/core.InvokeFlowSynchronization.InitializeBarriers",
+	"L/core/directinvoke|asyncPayloadCopy$1":    "io.LimitReader",
+}
+
+// stripAnon cuts the closure suffix off a function name: "L/rapid.doInvoke$1$2" -> "L/rapid.doInvoke".
+// Who-may tables name the enclosing declared function: closure numbers shift when an unrelated closure is added.
+func stripAnon(name string) string {
+	if i := strings.Index(name, "$"); i >= 0 {
+		return name[:i]
+	}
+	return name
+}
+
 // fn resolves a function anchor or records it as unresolved.
 func fn(c *report.Ctx, pkg, name string) *ssa.Function {
+	if want, ok := closureRole[pkg+"|"+name]; ok {
+		if parent := c.P.Func(pkg, name[:strings.Index(name, "$")]); parent != nil {
+			var hits []*ssa.Function
+			for _, a := range parent.AnonFuncs {
+				if len(an.CallsTo(a, want)) > 0 {
+					hits = append(hits, a)
+				}
+			}
+			if len(hits) == 1 && len(hits[0].Blocks) > 0 {
+				c.Analysed("functions", 1)
+				return hits[0]
+			}
+		}
+	}
 	f := c.P.Func(pkg, name)
 	if f == nil || len(f.Blocks) == 0 {
 		c.Unresolved("ANCHOR", pkg+"."+name, "function %s.%s not found in the loaded program (renamed, removed, or turned into a promoted method)", pkg, name)
